@@ -2,6 +2,7 @@ import QibProofs.Lemmas.EncodeSum
 import QibProofs.Lemmas.EncodePrune
 import QibProofs.Lemmas.EncodeTotal
 import QibProofs.Lemmas.EncodeExtra
+import QibProofs.Lemmas.EncodeInv
 /-!
 C11 — Jordan-Wigner encoding reproduces the operator exactly.
 
@@ -151,6 +152,12 @@ theorem C11_encode_mat_tol_GQ (tol : ℚ) (fop : FieldOp GQ) (op : PauliOp GQ)
     ∃ L raw, fieldCheck fop = .ok L ∧ encodeRaw .jw fop = .ok raw ∧ op = raw.removeZero (fun w => w.absLe tol) ∧
       ∀ r c, ‖(PauliOp.mat GQ.toC L op - refMat GQ.toC L fop) r c‖ ≤ ((raw.length - op.length : ℕ) : ℝ) * (tol : ℝ) :=
   C11_encode_mat_tol GQ.scalarHom _ (tol : ℝ) (fun w hw => GQ.absLe_norm w tol hw) fop op h hwf
+
+/-- shape of the encoded operator: every string has length `L` (so `PauliOp.mat φ L` is exactly what
+`PauliOperator.as_matrix` sums), its phase is `q ∈ {0, 1}` (the sign sits in the weight) and no string occurs twice -/
+theorem C11_encode_strings {α : Type} [EncScalar α] (isZ : α → Bool) (fop : FieldOp α) (op : PauliOp α) (L : ℕ)
+    (hL : fieldCheck fop = .ok L) (h : encode .jw isZ fop = .ok op) :
+    (∀ e ∈ op, e.1.HasLen L ∧ e.1.q.val < 2) ∧ (op.map (·.1)).Nodup := encode_good .jw isZ fop op L hL h
 
 /-! ### what is accepted and what is rejected -/
 
